@@ -18,11 +18,15 @@ args = [a for a in sys.argv[1:] if not a.startswith("--")]
 STYLE = "refactor-bug" if "--refactor-bug" in sys.argv else ("far" if "--far" in sys.argv else "plain")
 base = args[0]
 only = set(args[1:])
+FRESH = "--fresh" in sys.argv      # no list of earlier mechanisms: the distribution an outside evaluator would draw from
+ALL = "--all" in sys.argv          # also the properties that are not claimed
 props = {}
 for l in open("/verif/properties.jsonl"):
     d = json.loads(l)
     props[d["id"]] = d
 claimed = [c["property_id"] for c in json.load(open("/verif/MANIFEST.json"))["checks"]]
+if ALL:
+    claimed = sorted(set(claimed) | set(props))
 os.makedirs(base, exist_ok=True)
 
 T = """You are helping to evaluate a verification effort by playing the role of a developer who introduces a subtle regression.
@@ -46,9 +50,7 @@ Your task: produce TWO DIFFERENT, INDEPENDENT source changes ({style_text}), suc
   2. the change BREAKS the property above (a real behavioural violation, not a crash on every run);
   3. the violation needs something specific to manifest (a particular input shape, an unusual configuration, a multi-step sequence, a rare random choice, two cooperating sites) - ordinary use would NOT expose it at once;
   4. you provide a demonstration: a self-contained Python script that exits non-zero / prints FAIL with your change applied and exits 0 / prints PASS on the unmodified worktree, deterministically (run it several times on the clean tree), exercising the real code of the repository.
-Earlier attempts by other people already covered the following mechanisms for this property - choose DIFFERENT functions / mechanisms / clauses of the property than these:
-{earlier}
-
+{earlier_block}
 Deliverables, for i in 1, 2:
   {out}/change{{i}}/patch.diff   - `git -C {wt} diff` for that change alone
   {out}/change{{i}}/demo.py      - the demonstration (repository root from env var HSA_REPO, default {wt}; insert it at sys.path[0])
@@ -64,7 +66,7 @@ for pid in claimed:
     n = pid[1:].lower()
     wt, out = "%s/c%s" % (base, n), "%s/out_c%s" % (base, n)
     earlier = []
-    for mp in sorted(glob.glob("/verif/seeded/%s-*/meta.json" % pid)):
+    for mp in ([] if FRESH else sorted(glob.glob("/verif/seeded/%s-*/meta.json" % pid))):
         m = json.load(open(mp))
         needs = " ".join(m.get("needs", "").replace("*", "").split())
         for pre in ("Needs, in one sentence:", "Needs to manifest:", "What it needs to manifest:", "Needs, to manifest:"):
@@ -95,5 +97,8 @@ for pid in claimed:
                       "code depends on - so that someone reviewing only the functions named above would not see it")
     open("%s/prompt_c%s.txt" % (base, n), "w").write(T.format(style_text=style_text, 
         wt=wt, out=out, pid=pid, title=d["title"], statement=d["statement"], quant=d["quantifier"]["text"],
-        files=", ".join(d["anchors"]["files"]), earlier="\n".join(earlier) or "  (none)"))
+        files=", ".join(d["anchors"]["files"]),
+        earlier_block="" if FRESH else ("Earlier attempts by other people already covered the following mechanisms for this property - "
+                                        "choose DIFFERENT functions / mechanisms / clauses of the property than these:\n%s\n"
+                                        % ("\n".join(earlier) or "  (none)"))))
     print(pid, wt, len(earlier), "earlier mechanisms")
